@@ -164,6 +164,50 @@ pub fn run(ctx: &mut Ctx) {
             judge(case, &model, &reach, strategy.name(), threads, &out);
         }
     });
+    // frontiers wider than one 1500-state block, with the only witness / violation far from the
+    // initial states
+    ctx.cases("verdicts_wide_frontier", ctx.n(6, 120), 3, |case| {
+        let (d, w) = *case.rng.pick(&[(3usize, 4000usize), (4, 2500), (3, 7000)]);
+        let mut g = gen_graph(&mut case.rng, &Knobs { layered: Some((d, w)), ..Knobs::default() });
+        if case.rng.pct(50) {
+            // a star: one initial state fanning out to a whole layer
+            g.inits = vec![0];
+            g.out[0] = (w..2 * w).map(|t| Some(t as u32)).collect();
+        }
+        let reach = g.reach();
+        let deep: Vec<usize> = (0..g.n).filter(|s| reach.reachable[*s] && reach.dist[*s] as usize >= 1).collect();
+        if deep.is_empty() {
+            case.distinct(g.structural_hash(), false);
+            return;
+        }
+        for _ in 0..case.rng.range(2, 4) {
+            // true at exactly one deep state (sometimes) / everywhere except one (always)
+            let at = *case.rng.pick(&deep);
+            if case.rng.pct(50) {
+                let mut l = vec![false; g.n];
+                l[at] = true;
+                g.labels.push(l);
+                g.props.push((Expectation::Sometimes, g.labels.len() - 1));
+            } else {
+                let mut l = vec![true; g.n];
+                l[at] = false;
+                g.labels.push(l);
+                g.props.push((Expectation::Always, g.labels.len() - 1));
+            }
+        }
+        g.labels.push(vec![false; g.n]);
+        g.props.push((Expectation::Sometimes, g.labels.len() - 1)); // never witnessed: keeps the run exhaustive
+        case.distinct(g.structural_hash(), true);
+        let model = GraphModel(Arc::new(g));
+        case.sample(|| model.summary());
+        for strategy in [Strategy::Bfs, Strategy::Dfs, Strategy::OnDemand] {
+            let threads = *case.rng.pick(&[1usize, 2, 4]);
+            let cfg = RunCfg { threads, visitor: 0, watchdog: std::time::Duration::from_secs(120), ..RunCfg::default() };
+            let out = run_checker(&model, strategy, &cfg, true);
+            case.add(&format!("wide_runs_{}_t{}", strategy.name(), threads), 1);
+            judge(case, &model, &reach, strategy.name(), threads, &out);
+        }
+    });
     ctx.cases("verdicts_dfs_symmetry", ctx.n(150, 8000), 0, |case| {
         let pairs = case.rng.range(1, 10);
         let mut g = gen_mirror_graph(&mut case.rng, pairs);
